@@ -281,6 +281,8 @@ def r2(prog, rep):
         "psi_divide_twopi": {"psi2D": "twopi", "psi1D": "twopi", "psi_axis_gfile": "twopi", "psi_bdry_gfile": "twopi"},
         "reverse_Bt": {"fpol1D": "neg"},
     }
+    params = {a.arg for a in f.node.args.args + f.node.args.kwonlyargs}
+    seen_opts = set()
     for s in f.node.body:
         if not isinstance(s, ast.If):
             continue
@@ -323,10 +325,19 @@ def r2(prog, rep):
                     got[nm] = "twopi"
                 else:
                     got[nm] = "?"
+        # only the data handed to the constructor is "family"; a block that touches none of it
+        # (a local sign factor chosen under the same option) is not a family block
+        got = {k: v for k, v in got.items() if k in params}
+        if not got:
+            continue
+        seen_opts.add(opt)
         tw = env.get("twopi")
         if opt == "psi_divide_twopi":
             rep.ob("R2", "twopi == 2*pi", isinstance(tw, Rat) and (tw - 2 * ctx.sym("pi")).is_zero(), f.site(s), "", key="family/twopi-def")
         rep.ob("R2", "option %s applies one operator to exactly its family %s" % (opt, sorted(want[opt])), got == want[opt], f.site(s), "found %s" % got, key="family/" + opt)
+    for opt in want:
+        if opt not in seen_opts:
+            rep.ob("R2", "option %s applies one operator to exactly its family %s" % (opt, sorted(want[opt])), False, f.site(), "found {}: no block under this option modifies constructor data", key="family/" + opt)
     # gfile comparisons use the reversal sign
     src = mod.code(f.node)
     # psi_reverse_sign is -1.0 exactly when reverse_current is set (conditional expression or if/else),
